@@ -247,6 +247,13 @@ class kMinPathErrorCycles(walkmodel.AbstractWalkModelDiGraph):
 
         self.optimization_options["trusted_edges_for_safety"] = self.trusted_edges_for_safety
         
+        # Constraints are used below, before the parent class validates them: their shape is checked here
+        if self.subset_constraints is not None and not all(
+            isinstance(constraint, list) and all(isinstance(edge, tuple) and len(edge) == 2 for edge in constraint)
+            for constraint in self.subset_constraints
+        ):
+            utils.logger.error(f"{__name__}: subset_constraints must be a list of lists of edges, where each edge is a tuple of two nodes.")
+            raise ValueError("subset_constraints must be a list of lists of edges, where each edge is a tuple of two nodes.")
         # If we get subset constraints, and the coverage fraction is 1
         # then we know their edges must appear in the solution, so we add their edges to the trusted edges for safety
         if self.subset_constraints is not None:
